@@ -367,16 +367,26 @@ def explore_case(
         if seen_sig[sig] > 2:
             continue
         vals = {a: iss.values.get(a, Fraction(0)) for a in atoms}
+        env = None
         try:
             rep = concrete_run_poisoned(body, case, vals, options)
+            match = _matching(rep, iss)
+            if not match:
+                # S4: a conforming numpy whose unstable argsort orders ties differently
+                rep2 = concrete_run_poisoned(body, case, vals, options, reverse_ties=True)
+                if _matching(rep2, iss):
+                    rep, env = rep2, "reverse-ties"
         except Exception as e:
             rep = [Issue("harness-exception", iss.op, "%s: %s" % (type(e).__name__, e))]
-        match = [r for r in rep if r.kind == iss.kind or (iss.kind == "uninitialised" and r.kind == "value") or (iss.kind == "value" and r.kind in ("shape", "malformed"))]
+        match = _matching(rep, iss)
         rec = iss.to_json()
         rec["signature"] = sig
         rec["values"] = {a: frac_str(v) for a, v in vals.items()}
         if match:
             rec["native_detail"] = match[0].detail
+            if env:
+                rec["env"] = env
+                rec["detail"] += " [under a conforming numpy whose unstable argsort reverses ties]"
             confirmed.append(rec)
         else:
             rec["native_issues"] = [r.to_json() for r in rep][:3]
@@ -402,18 +412,37 @@ def explore_case(
     }
 
 
-def concrete_run_poisoned(body, case, values, options=None) -> List[Issue]:
+def _matching(rep: List[Issue], iss: Issue) -> List[Issue]:
+    return [
+        r
+        for r in rep
+        if r.kind == iss.kind
+        or (iss.kind == "uninitialised" and r.kind in ("value", "exception"))
+        or (iss.kind == "value" and r.kind in ("shape", "malformed"))
+    ]
+
+
+def concrete_run_poisoned(body, case, values, options=None, reverse_ties: bool = False) -> List[Issue]:
     import numpoly
 
     _poison_install()
+    if reverse_ties:
+        from . import stubs
+
+        stubs.install()
+        stubs.CONCRETE_ENV["reverse_ties"] = True
     ctx = ConcreteCtx(case, values)
-    with numpoly.global_options(**numpoly.get_options(defaults=True)):
-        if options:
-            numpoly.set_options(**options)
-        try:
-            body(ctx)
-        except Exception as e:
-            ctx.fail("harness-exception", "%s: %s" % (type(e).__name__, str(e)[:200]))
+    try:
+        with numpoly.global_options(**numpoly.get_options(defaults=True)):
+            if options:
+                numpoly.set_options(**options)
+            try:
+                body(ctx)
+            except Exception as e:
+                ctx.fail("harness-exception", "%s: %s" % (type(e).__name__, str(e)[:200]))
+    finally:
+        if reverse_ties:
+            stubs.CONCRETE_ENV["reverse_ties"] = False
     return ctx.issues
 
 
@@ -450,6 +479,9 @@ def known_match(entry: Dict, rec: Dict) -> bool:
 
 def _worker_init():
     os.environ.setdefault("NUMPOLY_VERIF", "1")
+    import warnings
+
+    warnings.simplefilter("ignore")
     sys.setrecursionlimit(10000)
 
 
